@@ -479,9 +479,10 @@ HOLE_TEMPLATES = {
     "fields_only": '===D===\nFIELDS:\n  X::{v}\n  Y::["a"∧REQ]\n===END===\n',
     "filter_keys": "===D===\nSTATUS::{v}\nRISKS::{v}\nTESTS:\n  CI::{v}\n===END===\n",
     "frontmatter": "---\nname: {y}\ndescription: {y}\nallowed-tools: {y}\ndate: {y}\n---\n\n===S===\nMETA:\n  TYPE::SKILL\n  VERSION::\"1\"\n===END===\n",
+    "frontmatter_whole": "---\n{y}\n---\n\n===S===\nMETA:\n  TYPE::SKILL\n  VERSION::\"1\"\n===END===\n",
     "skill_meta": "---\nname: x\ndescription: y\nallowed-tools: [a]\n---\n\n===S===\nMETA:\n  TYPE::SKILL\n  VERSION::{v}\n  STATUS::{v}\n===END===\n",
 }
-HOLE_YAML = ["x", "[a]", "2001-02-30", "2001-02-28", "12:30:99", "!!binary x", "&a [*a]", "{a: 1}", "~", "1e999", ".inf", ".nan", "0o7", "'", '"', "- x", "? x", "%", "@", "`", "|", ">", "*a", "!!python/none x", "",
+HOLE_YAML = ["- a\n- b", "a: 1\nb: [x", "# only a comment", "42", "title line", "name: x\nname: y", "? [a, b]\n: c", "x", "[a]", "2001-02-30", "2001-02-28", "12:30:99", "!!binary x", "&a [*a]", "{a: 1}", "~", "1e999", ".inf", ".nan", "0o7", "'", '"', "- x", "? x", "%", "@", "`", "|", ">", "*a", "!!python/none x", "",
              "2001-02-28T25:00:00Z", "0x", "1_000", "yes"]
 
 
@@ -511,7 +512,7 @@ def shard_holes(ctx: Ctx, sh: int, nshards: int) -> Stats:
     fields) and values of every kind (out-of-range numbers, lists, maps, holographic patterns, operators, wrong types),
     through every tool with every mode/format flag."""
     st = Stats()
-    combos = [(tn, v) for tn in sorted(HOLE_TEMPLATES) for v in (HOLE_YAML if tn == "frontmatter" else HOLE_VALUES)]
+    combos = [(tn, v) for tn in sorted(HOLE_TEMPLATES) for v in (HOLE_YAML if tn.startswith("frontmatter") else HOLE_VALUES)]
     with scratch_dir() as root:
         for i, (tn, v) in enumerate(combos):
             if i % nshards != sh:
@@ -830,7 +831,7 @@ def check_case(case) -> list[Failure]:
         return [f for fl in st.failures.values() for f in fl if f.case == case]
     if k == "hole":
         st = Stats()
-        combos = [(tn, v) for tn in sorted(HOLE_TEMPLATES) for v in (HOLE_YAML if tn == "frontmatter" else HOLE_VALUES)]
+        combos = [(tn, v) for tn in sorted(HOLE_TEMPLATES) for v in (HOLE_YAML if tn.startswith("frontmatter") else HOLE_VALUES)]
         idx = combos.index((case["template"], case["value"]))
         st = shard_holes(None, idx, len(combos))
         return [f for fl in st.failures.values() for f in fl]
